@@ -21,7 +21,7 @@ LEVEL = "model_checking"
 RULE = ("E1: every sequence up to length L over items (delta-V in {-2^23-1,-2^23,-2^23+1,-2,-1,0,1,2,2^23-1,2^23,2^23+1} mod "
         "2^24, delta-t in {0,127.9,128,128.1} s, CON/NON), from first Observe values {5, 2^24-2}, for both request paths; plus "
         "same-message-ID copies after a pause, terminators (2.05 without Observe, 4.04, ICMP error, first response without Observe) at every position with later "
-        "arrivals; distinct = distinct (path, sequence); states = distinct (model state, delivered stream) pairs")
+        "arrivals; requests whose transport tuning is given as a class (Reliable/Unreliable); distinct = distinct (path, sequence); states = distinct (model state, delivered stream) pairs")
 ASSUMPTIONS = [
     "the model reads arrival times from the same clock seam the library reads (no float drift between the two)",
     "each notification is processed before the next one arrives (the lossy iterator hand-over is stressed separately)",
@@ -40,7 +40,7 @@ def fresh(v1, t1, v2, t2):
     return (v1 < v2 and v2 - v1 < (1 << 23)) or (v1 > v2 and v1 - v2 > (1 << 23)) or (t2 > t1 + 128)
 
 
-def run_sequence(res, blockwise, v0, items, seedchar=b"n", first_delay=0.0):
+def run_sequence(res, blockwise, v0, items, seedchar=b"n", first_delay=0.0, tuning=None):
     """items: ("n", dv, dt, con) notification | ("dup",) repeat the previous datagram | ("fin", code) response without
     Observe | ("icmp",) transport error | first-response variant given through v0 = None (no Observe)."""
     w = World()
@@ -48,6 +48,10 @@ def run_sequence(res, blockwise, v0, items, seedchar=b"n", first_delay=0.0):
         cli = w.add_context("cli", *CLI)
         srv = w.add_peer(Notifier("srv", *SRV))
         m = Message(code=GET, uri_path=["obs"], observe=0)
+        if tuning is not None:
+            # the tuning handed over as a class (what the library's own advice for choosing CON/NON amounts to), not an instance
+            import aiocoap
+            m.transport_tuning = {"Reliable": aiocoap.Reliable, "Unreliable": aiocoap.Unreliable}[tuning]
         m.remote = cli.remote(SRV)
         req = cli.ctx.request(m, handle_blockwise=blockwise)
         cbs, ebs, its, itend = [], [], [], []
@@ -63,7 +67,7 @@ def run_sequence(res, blockwise, v0, items, seedchar=b"n", first_delay=0.0):
                 itend.append(e)
         task = w.loop.create_task(consume())
         w.loop.settle()
-        case = {"blockwise": blockwise, "v0": v0, "items": [list(i) for i in items], "first_delay": first_delay}
+        case = {"blockwise": blockwise, "v0": v0, "items": [list(i) for i in items], "first_delay": first_delay, "tuning": tuning}
         res.evaluations += 1
         res.traces += 1
 
@@ -345,6 +349,12 @@ def job(arg):
                     run_sequence(res, bw, 5, (("n", 1, 0.0, True), a, ("dup", gap), ("n", 1, 0.0, False)))
                 for t in terms[:3]:
                     run_sequence(res, bw, 5, (a, t, ("dup",), ("dup", 128.1)))
+            # the request's tuning given as a class: everything that reads a tuning parameter (freshness by the clock is read only
+            # for arrivals that are not newer by their number) has to cope
+            for tn in ("Reliable", "Unreliable"):
+                for a in small + [("n", 0, 0.0, True)]:
+                    for b in small[:3] + [("dup",), ("dup", 128.1), ("fin", 69, True)]:
+                        run_sequence(res, bw, 5, (a, b, small[0]), tuning=tn)
             # transport error before the first response
             run_sequence(res, bw, 5, (("icmp0",),))
             run_sequence(res, bw, 5, (("icmp0",), small[0]))
@@ -374,7 +384,7 @@ def run(tier, seed, jobs):
 def replay(case, scenario, seed):
     res = Result()
     items = tuple(tuple(i) for i in case["items"])
-    run_sequence(res, case["blockwise"], case["v0"], items, first_delay=case.get("first_delay", 0.0))
+    run_sequence(res, case["blockwise"], case["v0"], items, first_delay=case.get("first_delay", 0.0), tuning=case.get("tuning"))
     return [v for v, n in res.violations.values()]
 
 
